@@ -129,6 +129,11 @@ type SyscallGroup struct {
 	Action             Action               `config:"action" validate:"required" json:"action" yaml:"action"`         // Action to take upon a match.
 
 	arch *arch.Info
+
+	// fallThrough is set while assembling a policy for groups that are followed by another
+	// non-empty group. If none of its syscalls match, such a group continues with the next
+	// group instead of returning the default action.
+	fallThrough bool
 }
 
 // ArgumentConditions consist of a list of up to six conditions for the six arguments.
@@ -215,10 +220,19 @@ func (p *Policy) Assemble() ([]bpf.Instruction, error) {
 
 	// Build the syscall filters.
 	var instructions []bpf.Instruction
-	for _, group := range p.Syscalls {
+	lastGroup := -1
+	for i, group := range p.Syscalls {
+		if len(group.Names) > 0 || len(group.NamesWithCondtions) > 0 {
+			lastGroup = i
+		}
+	}
+	for i, group := range p.Syscalls {
 		if group.arch == nil {
 			group.arch = p.arch
 		}
+
+		// Only the last non-empty group returns the default action if nothing matches.
+		group.fallThrough = i < lastGroup
 
 		groupInsts, err := group.Assemble(p.DefaultAction)
 		if err != nil {
@@ -365,6 +379,11 @@ func (g *SyscallGroup) Assemble(defaultAction Action) ([]bpf.Instruction, error)
 	}
 
 	p.Ret(defaultAction)
+	if g.fallThrough {
+		// Another group follows: jump over this group's action to the next group
+		// instead of returning the default action.
+		p.instructions[len(p.instructions)-1] = bpf.Jump{Skip: 1}
+	}
 
 	p.SetLabel(action)
 	p.Ret(g.Action)
